@@ -650,7 +650,10 @@ static inline int _upipe_xfer_mgr_freeze(struct upipe_mgr *mgr)
 {
     struct upipe_xfer_mgr *xfer_mgr = upipe_xfer_mgr_from_upipe_mgr(mgr);
     upipe_mgr_use(mgr);
-    return umutex_lock(xfer_mgr->mutex);
+    int err = umutex_lock(xfer_mgr->mutex);
+    if (unlikely(!ubase_check(err)))
+        upipe_mgr_release(mgr);
+    return err;
 }
 
 /** @This thaws the remote event loop previously frozen by @ref
